@@ -73,6 +73,8 @@ SPEC = {
         "core/message_context.go:MessageContext.refundGas",
         "core/state_processor.go:StateProcessor.ApplyMessageEntry",
         "core/state_transition.go:StateTransition.TransitionDb",
+        "core/evm.go:NewEVMContext",
+        "core/evm.go:GetHashFn",
         "staking/endblock.go:EndBlock",
         "staking/endblock.go:rewardsToPool",
         "staking/endblock.go:blockRewards",
@@ -96,17 +98,17 @@ SPEC = {
         "core/state/statedb.go:StateDB.IntermediateRoot",
         "core/state/statedb.go:StateDB.Commit",
     ],
-    "level_text": "Coq theorems over all states, candidate transaction lists, evidence pools and admissible iteration orders, with transaction execution, signer resolution, the penalty and the period-end hook as arbitrary functions: (1) every Go map / sync.Map iteration inventoried by go/ast in core/state_processor.go, staking/*.go and core/state/*.go is either paired with a Gallina model of its loop body and a proof that the result is invariant under permutation of the iterated entries, or listed as off the execution path, and the regenerated inventory equals the classified set (a new map range breaks the bridge); rewardsToPool and distributeRewards as wholes are schedule-free; (2) evidence processing is independent of the signer cache, and every sequence of staking-record operations gives on a carried StateDB whose object cache is coherent with its trie what it gives on a fresh StateDB (coherence is an invariant of all operations, including the failing pending-total check; the harness checks it on the real StateDB after every block); (3) processing a block is independent of iteration orders and cache contents (the chain head is no input since fix ec9154c); (3a) the block gas pool: for every candidate sequence and every mix of build-time failures the worker's pool is non-negative and never fuller than an importer's, so every admitted transaction can buy its gas limit on import and the gas used stays within the block gas limit (the worker's own log records of every candidate - applied, nonce, no money for the gas, refused by the pool, value transfer impossible - and its final pool are checked against the model in Coq); (4a) forks: a branch of any length built block after block is accepted with the builder's states and receipts by the block-after-block import (ordinary import of the branch and the re-import after a side-chain verification; unconditional when the lookups agree at the fork point) and by the side-chain verification outside the open finding, the executing node's database entering as the transaction-lookup index of the period-end hook; the full side-chain statement is refuted in the model and on the real code; (4) every block the builder assembles from any candidates and any evidence pool is accepted with the builder's state and receipts (unconditional since fixes e1d256e and ec9154c; the two former finding classes are regression cases in the corpus). The model is tied to the code by running real chains: blocks built by the real miner worker (and by chain_makers) with the staking module, imported by BlockChain.InsertChain on a second node, re-executed on fresh state objects on a third and re-run in fresh processes; per-block observations are checked against the model inside Coq.",
+    "level_text": "Coq theorems over all states, candidate transaction lists, evidence pools and admissible iteration orders, with transaction execution, signer resolution, the penalty and the period-end hook as arbitrary functions: (1) every Go map / sync.Map iteration inventoried by go/ast in core/state_processor.go, staking/*.go and core/state/*.go is either paired with a Gallina model of its loop body and a proof that the result is invariant under permutation of the iterated entries, or listed as off the execution path, and the regenerated inventory equals the classified set (a new map range breaks the bridge); rewardsToPool and distributeRewards as wholes are schedule-free; (2) evidence processing is independent of the signer cache, and every sequence of staking-record operations gives on a carried StateDB whose object cache is coherent with its trie what it gives on a fresh StateDB (coherence is an invariant of all operations, including the failing pending-total check; the harness checks it on the real StateDB after every block); (3) processing a block is independent of iteration orders and cache contents (the chain head is no input since fix ec9154c); (3a) the block gas pool: for every candidate sequence and every mix of build-time failures the worker's pool is non-negative and never fuller than an importer's, so every admitted transaction can buy its gas limit on import and the gas used stays within the block gas limit (the worker's own log records of every candidate - applied, nonce, no money for the gas, refused by the pool, value transfer impossible - and its final pool are checked against the model in Coq); (3b) the block context (number, coinbase, time, gas limit, BLOCKHASH over the block's own parent chain) is an explicit input of block processing: the result depends on the own ancestry within the reach of BLOCKHASH only, not on the contents of the ancestor-hash cache nor on which sibling the process executed before; (4a) forks: a branch of any length built block after block is accepted with the builder's states and receipts by the block-after-block import (ordinary import of the branch and the re-import after a side-chain verification; unconditional when the lookups agree at the fork point) and by the side-chain verification outside the open finding, the executing node's database entering as the transaction-lookup index of the period-end hook; the full side-chain statement is refuted in the model and on the real code; (4) every block the builder assembles from any candidates and any evidence pool is accepted with the builder's state and receipts (unconditional since fixes e1d256e and ec9154c; the two former finding classes are regression cases in the corpus). The model is tied to the code by running real chains: blocks built by the real miner worker (and by chain_makers) with the staking module, imported by BlockChain.InsertChain on a second node, re-executed on fresh state objects on a third and re-run in fresh processes; per-block observations are checked against the model inside Coq.",
     "level_note": "Trusted: Coq kernel + vm_compute; the hand model's fidelity rests on the differential check (reach reported in evidence); the EVM, BLS verification, takePenalty and the period-end handlers are oracles (functions) in the theorems; tries are modelled as finite maps (canonicity of the root is C13's statement); which inventoried sites are off the execution path is a reviewed classification, not a call-graph proof; no axioms.",
     "harness": "c06",
     "hooks": ["miner/zz_verif_c06.go", "staking/zz_verif_c06.go", "core/state/zz_verif_c06.go"],
     "translators": [["ranges", "-out", "{gen}/C06MapRanges.v"]],
-    "coq_targets": ["C06/Model.vo", "C06/ProofsA.vo", "C06/ProofsB.vo", "C06/ProofsC.vo", "C06/ProofsD.vo", "C06/ProofsE.vo", "C06/ProofsF.vo", "gen/C06MapRanges.vo", "C06/Bridge.vo", "C06/Properties.vo"],
+    "coq_targets": ["C06/Model.vo", "C06/ProofsA.vo", "C06/ProofsB.vo", "C06/ProofsC.vo", "C06/ProofsD.vo", "C06/ProofsE.vo", "C06/ProofsF.vo", "C06/ProofsG.vo", "gen/C06MapRanges.vo", "C06/Bridge.vo", "C06/Properties.vo"],
     "properties_v": "C06/Properties.v",
     "obligations": [
         "C06_order_free", "C06_rewards_order_free", "C06_distribute_order_free", "C06_bridge", "C06_cache_free", "C06_object_cache_free", "C06_cache_coherence_invariant",
         "C06_deterministic", "C06_builder_deterministic", "C06_builder_validator",
-        "C06_full_holds", "C06_gas_pool_never_underflows", "C06_gas_used_within_limit", "C06_fork_import_holds_outside", "C06_fork_canonical_import", "C06_fork_side_chain_refuted", "C06_nonvacuous_rewards", "C06_nonvacuous_bridge", "C06_nonvacuous_agreement", "C06_nonvacuous_object_cache", "C06_nonvacuous_fork", "C06_nonvacuous_gas_pool",
+        "C06_full_holds", "C06_gas_pool_never_underflows", "C06_gas_used_within_limit", "C06_execution_depends_only_on_own_ancestry", "C06_fork_import_holds_outside", "C06_fork_canonical_import", "C06_fork_side_chain_refuted", "C06_nonvacuous_rewards", "C06_nonvacuous_bridge", "C06_nonvacuous_agreement", "C06_nonvacuous_object_cache", "C06_nonvacuous_fork", "C06_nonvacuous_gas_pool", "C06_nonvacuous_block_ctx",
     ],
     # -n counts BLOCKS executed on the implementation (each yields 1-3 model cases)
     "cases": {"quick": 450, "thorough": 6000},
@@ -130,6 +132,7 @@ SPEC = {
         "tries and Go maps are finite maps; roots, receipt hash and bloom are functions of the content (canonicity of the trie root: C13)",
         "the object-cache theorem covers the staking-record cache (GetStakingRecordValue / AddStakingRecord / updateStakingTrie / ResetStakingTrie and the pending-total check); account and validator object caches are covered by the carried-StateDB differential only",
         "side-chain import is driven on a node whose database already holds the fork's blocks and their transaction lookup entries, with forks of at most 8 blocks and evidence look-back blocks on the canonical prefix; without that preparation the path fails in ways listed as open findings / described in fixes/C06_side_chain_*.md",
+        "block context: the EVM applies the GetHash function pointwise (exec_reads_hashes_pointwise); the ancestor-hash cache, if any, agrees with the ancestry of the block being executed (hash_memo_ok; per-message cache in the code as it is); the harness executes siblings alternately in one process and imports both branches in both orders with block-context readers at the same heights",
         "gas pool: the outcome of applying a candidate (applied / which failure, gas handed back) is an input of the pool model; the block-level theorems treat applicability as one oracle on both sides, which C06_gas_pool_never_underflows justifies for the pool; the worker's loop break below 21000 and the pool refusal are modelled, the interrupt is not",
         "forks: endStakingPeriod reads the node's transaction lookup at the pending hashes of the staking records only (period_end_framed); reorg bookkeeping (canonical number index, lookup deletion) and header verification of side-chain blocks are outside the model and covered by the harness' two-branch histories",
         "Go map keys are distinct (NoDup hypotheses of the keyed sites); blobs are content-addressed (Commit site)",
@@ -142,6 +145,7 @@ SPEC = {
         "staking.slashing", "staking.replaySlashing", "staking.processEvidences", "staking.processDoubleSignV5 (classification)",
         "state.StateDB.Finalise / IntermediateRoot / Commit / updateStakingTrie (map loops)", "state.stateObject.finalise / updateTrie (map loops)",
         "state.StateDB.GetStakingRecordValue / AddStakingRecord / getStakingRecord / updateStakingTrie / ResetStakingTrie, staking.checkAndUpdateTotalPendingStakesOfValidator (object cache model)",
+        "core.NewEVMContext / GetHashFn, vm.opBlockhash (block context, ancestor-hash cache)",
         "miner.worker.commitTransactions/commitTransaction gas pool, core.MessageContext.buyGas/refundGas, core.StateProcessor.ApplyMessageEntry failure points (gas pool model)",
         "core.BlockChain.insertSidechain / verifyAllSideChainBlocks and the re-import (import_chain), staking.processPendingTxs' use of the transaction lookup (index argument of the period-end hook)",
         "state.ValidatorIndex.List/EncodeRLP/DeepCopy/Empty, StateDB.GetValidators (sync.Map ranges)",
